@@ -134,7 +134,7 @@ def judge(case, stats=None):
 
 @st.composite
 def cases(draw, perms):
-  design = draw(rtl_gen.designs(ff_heavy=True, max_steps=3, min_comb=0, max_depth=2, child_bias=1))
+  design = draw(rtl_gen.designs(ff_heavy=True, max_steps=3, min_comb=0, max_depth=2, child_bias=1, ifcs=draw(st.booleans())))
   seq = draw(rtl_gen.input_seqs(design))
   seeds = draw(st.lists(st.integers(0, 2 ** 20), min_size=3, max_size=3))
   return {"design": design, "seq": seq, "seeds": seeds, "perms": perms}
@@ -149,6 +149,7 @@ def run_shard(ctx):
   def t(case):
     if ctx.out_of_time(): return
     ctx.count()
+    for f_ in rtl_gen.features(case["design"]): ctx.label(f_)
     stats = {}
     v = judge(case, stats)
     hz = ff_hazard(case["design"])
